@@ -123,6 +123,37 @@ def hardlink_archive(root, rnd):
     return [("x/hl_first", "x/slow.bin"), ("hl_top", "x/tiny0"), ("x/hl_last", "x/tiny4")] + chain
 
 
+def list_under_threads(c, root, rnd, oracle):
+    """`pna list PATTERN` filters its rows with rayon's into_par_iter().filter().collect() (list.rs print_entries): the
+    listing of a many-entry archive must be the same text, in the same order, for every worker count and repetition"""
+    core.build_harness(["mkarchive"]) if not os.path.exists(core.harness_bin("mkarchive")) else None
+    rows = []
+    for i in range(6000):
+        name = "d%02d/f%04d%s" % (rnd.randrange(40), i, rnd.choice([".txt", ".bin", ""]))
+        rows.append("\t".join(["entry", "0", name.encode().hex(), b"x".hex() if i % 7 else "", "0", "0", "0", "-", "-", "-", "-", "-", "-"]))
+    spec = os.path.join(root, "many.spec")
+    with open(spec, "w") as f:
+        f.write("\n".join(rows) + "\n")
+    arch = os.path.join(root, "many.pna")
+    p = subprocess.run([core.harness_bin("mkarchive"), spec, arch], stdout=subprocess.PIPE, stderr=subprocess.PIPE)
+    assert p.returncode == 0, p.stderr[-500:]
+    runs = 0
+    for args in (["list", arch, "*"], ["list", arch, "**/*.txt", "d0*/*"], ["list", "--format", "jsonl", "--unstable", arch, "d1*/*"]):
+        seen = {}
+        for k in THREADS:
+            for rep in range(2):
+                r = cli.run_pna(args, cwd=root, timeout=120, threads=k)
+                runs += 1
+                seen.setdefault((r["rc"], hashlib.sha256(r["out"]).hexdigest()[:12], r["out"].count(b"\n")), []).append("k%d_r%d" % (k, rep))
+        if len(seen) > 1:
+            a, b = list(seen.items())[:2]
+            oracle.setdefault(0, []).append("the output of `pna %s` depends on the worker count: (status, digest, lines) %s in %s but %s in %s"
+                                            % (" ".join(x if x != arch else "many.pna" for x in args), a[0], a[1][:3], b[0], b[1][:3]))
+    c.hist["runs_list_patterns"] = runs
+    c.cov["evaluations"] += runs
+    return runs
+
+
 def sha_files(paths):
     h = hashlib.sha256()
     for p in paths:
@@ -299,6 +330,8 @@ def run(tier, seed, replay=None):
             oracle.setdefault(0, []).append("hard link(s) %s do not share an inode with their source after extraction (runs %s)" % (bad, tags[:3]))
     for f in fails[:5]:
         oracle.setdefault(0, []).append("run failed: " + f)
+    with cli.Sandbox("c19list") as sbl:
+        list_under_threads(c, sbl.root, random.Random(seed + 5), oracle)
     c.hist.update({"runs_archive_commands": stats["runs"], "runs_extract": stats["extract_runs"], "threads": ",".join(map(str, THREADS)),
                    "repetitions": reps, "busy_processes": BUSY,
                    "distinct_orders_observed": sum(len(observed[x]) for x in COMMANDS),
